@@ -209,9 +209,13 @@ func (w *World) oracleConservation(pfx string, atLeastOnce bool) {
 			attempts := 0
 			var prev *rcptAttempt
 			terminalPerm := false
+			sawPerm := false
 			for _, tx := range txs {
 				a := attempt(tx, r)
-				implicit := !tx.Started && delivered == 0 && !terminalPerm && attempts < sc.MaxTries
+				// a failed Start names no recipients: r took part in it only if
+				// it was certainly still pending (an earlier attempt that left r
+				// with a permanent failure among others may have ended it)
+				implicit := !tx.Started && delivered == 0 && !terminalPerm && !sawPerm && attempts < sc.MaxTries
 				if !a.presented && !implicit {
 					continue
 				}
@@ -232,6 +236,9 @@ func (w *World) oracleConservation(pfx string, atLeastOnce bool) {
 				}
 				if len(a.set) > 0 && !anyRetriable(a.set) {
 					terminalPerm = true
+				}
+				if anyPerm(a.set) {
+					sawPerm = true
 				}
 				aa := a
 				prev = &aa
@@ -270,7 +277,7 @@ func (w *World) oracleConservation(pfx string, atLeastOnce bool) {
 				} else {
 					// no report possible: the recipient must at least have
 					// failed terminally
-					term := prev != nil && len(prev.set) > 0 && (anyPerm(prev.set) || attempts >= sc.MaxTries)
+					term := prev != nil && len(prev.set) > 0 && (sawPerm || attempts >= sc.MaxTries)
 					if !term {
 						s.Violate(key("lost/"+kind+"/"+stage+"/"+cls), "%s: %s dropped without terminal failure (attempts=%d, last attempt: %s)", m.ID, r, attempts, descAttempt(prev))
 					}
